@@ -54,3 +54,87 @@ fn('RiverWrapper._extend_dict#label', F + 'river.py', src_cls='RiverWrapper', sr
            forall_key(lambda k: c.res.dom[k] == lor(c.old._seen_labels.dom[k], k == c.a.y_prediction), pats=lambda k: [c.res.dom[k]]),
            forall_key(lambda k: implies(c.res.dom[k], c.res.val[k] == ite(k == c.a.y_prediction, 1, 0)), pats=lambda k: [c.res.val[k]])),
    })
+
+
+# =====================================================================================================================
+# C13: a river metric used as loss  (ixai/utils/wrappers/river.py RiverMetricToLossFunction, ixai/utils/validators/loss.py)
+# =====================================================================================================================
+from pyvc import sym as _sym
+from pyvc.sym import pack as _pack, SNum as _SNum, SDict as _SDict
+
+UPDM = z3.Function('metric_update', _sym.ValS, _sym.ValS, _sym.ValS, _sym.ValS)     # state x y_true x y_pred -> state
+REVM = z3.Function('metric_revert', _sym.ValS, _sym.ValS, _sym.ValS, _sym.ValS)
+GETM = z3.Function('metric_get', _sym.ValS, z3.RealSort())
+NUM_AS_VAL = z3.Function('num_as_val', z3.RealSort(), _sym.ValS)
+DICT_AS_VAL = z3.Function('dict_as_val_' + PredT.name, PredT.sort(), _sym.ValS)
+
+# ASSUMED contract of river's Metric (a dependency; exercised by the bounded sweep over every accepted metric class):
+# revert after update with the same arguments restores the observable state; get() is pure;
+# bigger_is_better is a constant; a single-value metric handed a dict (or a dict metric handed a number) raises
+# AttributeError and is left unchanged.
+cls('RiverMetric', fields={'sigma': TVal, 'bigger_is_better': TBool}, ghost={'wants_dict': TBool}, invariant={})
+
+
+def _revert_axiom(c):
+    s, y, p = z3.Const('rv!s', _sym.ValS), z3.Const('rv!y', _sym.ValS), z3.Const('rv!p', _sym.ValS)
+    return _sym.forall([s, y, p], REVM(UPDM(s, y, p), y, p) == s, [REVM(UPDM(s, y, p), y, p)])
+
+
+IS_DICT_VAL = z3.Function('val_is_dict', _sym.ValS, z3.BoolSort())
+_mismatch = lambda c: c.old.wants_dict != IS_DICT_VAL(c.a.y_pred)
+fn('RiverMetric.update', None, self_cls='RiverMetric', params={'y_true': TVal, 'y_pred': TVal}, assume_only=True,
+   modifies=['sigma'], raises={'AttributeError': {'when': _mismatch}},
+   ensures={'step': lambda c: c.new.sigma == UPDM(c.old.sigma, c.a.y_true, c.a.y_pred), 'revertible': _revert_axiom})
+fn('RiverMetric.revert', None, self_cls='RiverMetric', params={'y_true': TVal, 'y_pred': TVal}, assume_only=True,
+   modifies=['sigma'], raises={'AttributeError': {'when': _mismatch}},
+   ensures={'step': lambda c: c.new.sigma == REVM(c.old.sigma, c.a.y_true, c.a.y_pred)})
+fn('RiverMetric.get', None, self_cls='RiverMetric', params={}, assume_only=True, pure=True, ret=TNum,
+   ensures={'value': lambda c: c.res == GETM(c.old.sigma)})
+
+cls('MetricLoss', file=F + 'river.py',
+    fields={'_river_metric': TObj('RiverMetric'), '_sign': TNum, '_dict_input_metric': TBool},
+    invariant={
+        # negated when the metric is bigger-is-better, so that smaller always means better
+        'sign': lambda s: s._sign == ite(s._river_metric.bigger_is_better, -1, 1),
+        'input_kind': lambda s: s._dict_input_metric == s._river_metric.wants_dict,
+    })
+
+fn('RiverMetricToLossFunction.__init__', F + 'river.py', kind='init', self_cls='MetricLoss',
+   params={'river_metric': TObj('RiverMetric'), 'dict_input_metric': TBool},
+   requires={'kind_known': lambda c: c.a.dict_input_metric == c.a.river_metric.wants_dict},
+   ensures={'metric_untouched': lambda c: c.new._river_metric.term == c.a.river_metric.term,
+            'cfg': lambda c: c.new._dict_input_metric == c.a.dict_input_metric})
+
+
+def _metric_arg(c):
+    """what the metric receives: the 'output' entry (0 when missing) for single-value metrics, the whole dict otherwise"""
+    p = c.a.y_prediction
+    out = str_key('output')
+    return ite(c.old._dict_input_metric, DICT_AS_VAL(p.t), NUM_AS_VAL(ite(p.dom[out], p.val[out], 0)))
+
+
+def _kind_axioms(c):
+    x = z3.Real('ka!x')
+    d = z3.Const('ka!d', PredT.sort())
+    return [_sym.forall([x], z3.Not(IS_DICT_VAL(NUM_AS_VAL(x))), [NUM_AS_VAL(x)]),
+            _sym.forall([d], IS_DICT_VAL(DICT_AS_VAL(d)), [DICT_AS_VAL(d)])]
+
+
+fn('MetricLoss.__call__', F + 'river.py', src_cls='RiverMetricToLossFunction', self_cls='MetricLoss', params={'y_true': TVal, 'y_prediction': PredT},
+   ret=TNum, modifies=['_river_metric'], entry_lemmas=_kind_axioms,
+   ensures={
+       # pure: the metric's own state (hence its reported value) is exactly what it was
+       'metric_state_restored': lambda c: c.new._river_metric.term == c.old._river_metric.term,
+       # the value a metric in that state reports after this single pair, sign-adjusted
+       'value': lambda c: c.res == c.old._sign * GETM(UPDM(c.old._river_metric.sigma, c.a.y_true, _metric_arg(c))),
+       'args_unchanged': lambda c: c.a_new.y_prediction.t == c.a.y_prediction.t if isinstance(c.a_new._d.get('y_prediction'), _SDict) else True,
+   })
+
+fn('_get_loss_function_from_river_metric', 'ixai/utils/validators/loss.py', kind='function',
+   params={'river_metric': TObj('RiverMetric')}, ret=TObj('MetricLoss'), entry_lemmas=_kind_axioms,
+   ensures={
+       # the probe leaves the metric reverted on both branches and records which kind of input it takes
+       'metric_restored': lambda c: c.a_new.river_metric.term == c.a.river_metric.term,
+       'wraps_that_metric': lambda c: c.res._river_metric.term == c.a.river_metric.term,
+       'kind_detected': lambda c: c.res._dict_input_metric == c.a.river_metric.wants_dict,
+   })
